@@ -5,9 +5,9 @@
 package c07
 
 import (
-	"os"
 	"encoding/binary"
 	"fmt"
+	"os"
 	"strings"
 	"syscall"
 	"time"
@@ -281,6 +281,48 @@ func mutate(r *hx.Run, b []byte, v6 bool) []byte {
 	return b
 }
 
+func truncatedOptions(r *hx.Run) []byte {
+	var o []byte
+	for n := 1 + r.R.Intn(4); n > 0; n-- {
+		switch r.R.Intn(7) {
+		case 0:
+			o = append(o, 2, 4, byte(r.R.Intn(256)), byte(r.R.Intn(256)))
+		case 1:
+			o = append(o, 3, 3, byte(r.R.Intn(16)))
+		case 2:
+			o = append(o, 8, 10)
+			t := make([]byte, 8)
+			r.R.Read(t)
+			o = append(o, t...)
+		case 3:
+			o = append(o, 4, 2)
+		case 4:
+			k := 1 + r.R.Intn(3)
+			o = append(o, 5, byte(2+8*k))
+			t := make([]byte, 8*k)
+			r.R.Read(t)
+			o = append(o, t...)
+		case 5:
+			o = append(o, 1)
+		default:
+			o = append(o, byte(9+r.R.Intn(200)), byte(r.R.Intn(6)))
+		}
+	}
+	if r.R.Intn(3) != 0 {
+		o = o[:len(o)-r.R.Intn(len(o)+1)/2]
+		if c := r.R.Intn(4); c < len(o) {
+			o = o[:len(o)-c]
+		}
+	}
+	if len(o) > 40 {
+		o = o[:40]
+	}
+	for len(o)%4 != 0 {
+		o = append([]byte{1}, o...)
+	}
+	return o
+}
+
 func base(r *hx.Run, w *world, v6 bool) []byte {
 	pl := make([]byte, []int{0, 1, 2, 7, 8, 9, 100, 1400}[r.R.Intn(8)])
 	r.R.Read(pl)
@@ -299,6 +341,14 @@ func base(r *hx.Run, w *world, v6 bool) []byte {
 			opts := make([]byte, 4*r.R.Intn(11))
 			r.R.Read(opts)
 			fl := []uint8{2, 16, 18, 24, 17, 4, 0, 1, 41}[r.R.Intn(9)]
+			if r.R.Intn(2) == 0 {
+				// well-formed options of the kinds the SYN and segment parsers know, cut off at a random point; NOPs in
+				// front pad to a multiple of four so that the cut option ends exactly where the option area ends
+				opts = truncatedOptions(r)
+				if r.R.Intn(2) == 0 {
+					fl = 2
+				}
+			}
 			return netsim.IPv4(peer4, our4, 6, 9, 0, 64, netsim.TCPSeg(peer4, our4, uint16(30000+r.R.Intn(1000)), 8080, r.R.Uint32(), r.R.Uint32(), fl, 1000, opts, pl))
 		default:
 			n := make([]byte, r.R.Intn(80))
